@@ -45,7 +45,7 @@ OWN = {
     "hashes_bits": [("ped", ["felt", "felt"]), ("pos", ["felt", "u8"]), ("pos_state", ["felt", "u64"]), ("bits", ["u128", "u128"]), ("u64_bits", ["u64", "u64"])],
     "control_flow": [("early_return", ["u32", "u32"]), ("match_num", ["u8"]), ("assert_path", ["u64", "u64"]),
                      ("locals_across_calls", ["felt", "felt"]), ("bool_logic", ["u8", "u8"])],
-    "boxes_nullable": [("boxed", ["u128", "u128"]), ("nullable", ["u32"]), ("snapshots", ["u64"]), ("byte_array", ["u8"])],
+    "boxes_nullable": [("boxed", ["u128", "u128"]), ("nullable", ["u32"]), ("snapshots", ["u64"]), ("byte_array", ["u8"]), ("boxed_enum_match", ["u8", "felt"])],
 }
 BOUNDS = {"u8": [0, 1, 2, 7, 100, 254, 255], "u16": [0, 1, 255, 256, 65535, 1000], "u32": [0, 1, 3, 1000, 2 ** 32 - 1, 65536],
           "u64": [0, 1, 2 ** 32, 2 ** 64 - 1, 999999], "u128": [0, 1, 2 ** 64, 2 ** 128 - 1, 12345678901234567890],
@@ -99,9 +99,75 @@ def cross_compare(chk, reals, label):
     return n
 
 
+def corelib_verdicts(cfg, tag):
+    """Runs the core library's own test-suite under one configuration; returns {test name: verdict}."""
+    from lib import BIN, workdir
+    import subprocess
+    out = os.path.join(workdir("sem", "corelib"), f"{tag}.txt")
+    cmd = [os.path.join(BIN, "corelib_tests"), os.path.join(REPO, "corelib"), cfg["opt"], "true" if cfg["skip_cf"] else "false",
+           str(cfg["match_thr"]) if cfg["match_thr"] is not None else "none"]
+    with open(out, "w") as f:
+        r = subprocess.run(cmd, stdout=f, stderr=subprocess.STDOUT, timeout=3000)
+    verdicts = {}
+    for line in open(out, errors="replace"):
+        if line.startswith("test ") and " ... " in line:
+            name, rest = line[5:].split(" ... ", 1)
+            verdicts[name.strip()] = rest.split()[0].strip()
+    if not verdicts:
+        tail = open(out, errors="replace").read()[-1500:]
+        return None, tail
+    return verdicts, ""
+
+
+def gas_observing_tests():
+    """Names (last path segment) of corelib tests whose body reads the gas counter: their verdict legitimately depends on
+    gas consumption, which the property allows to differ between configurations."""
+    import re as _re
+    names = set()
+    for path in glob.glob(os.path.join(REPO, "corelib", "src", "test", "**", "*.cairo"), recursive=True):
+        text = open(path, errors="replace").read()
+        parts = _re.split(r"(?m)^\s*fn\s+([A-Za-z0-9_]+)\s*\(", text)
+        # parts = [pre, name1, body1, name2, body2, ...]
+        for i in range(1, len(parts) - 1, 2):
+            if _re.search(r"get_available_gas|get_unspent_gas|get_builtin_costs|redeposit_gas|withdraw_gas", parts[i + 1]):
+                names.add(parts[i])
+    return names
+
+
+def corelib_under_configs(chk, cfgs):
+    import concurrent.futures
+    with concurrent.futures.ThreadPoolExecutor(max_workers=2) as ex:
+        res = list(ex.map(lambda ic: corelib_verdicts(ic[1], f"cfg{ic[0]}"), enumerate(cfgs)))
+    base = None
+    n = 0
+    gas_tests = gas_observing_tests()
+    for cfg, (v, tail) in zip(cfgs, res):
+        if v is None:
+            # the whole suite failed to build / run under this configuration
+            if base is not None:
+                chk.violation({"kind": "corelib_suite_fails", "cfg": cfg}, {"cfg": cfg, "output_tail": tail},
+                              f"the corelib test-suite does not build/run under {cfg} although it does under {base[0]}: {tail[-300:]}")
+            continue
+        if base is None:
+            base = (cfg, v)
+            continue
+        for name, verdict in v.items():
+            b = base[1].get(name)
+            if b is None:
+                continue
+            if name.rsplit("::", 1)[-1] in gas_tests:
+                continue          # observes the gas counter: verdict may legitimately depend on gas consumption
+            n += 1
+            if b != verdict:
+                chk.violation({"kind": "corelib_verdict_differs", "test": name, "cfg": cfg},
+                              {"test": name, "cfg_a": base[0], "verdict_a": b, "cfg_b": cfg, "verdict_b": verdict},
+                              f"corelib test {name}: {b} under {base[0]} but {verdict} under {cfg}")
+    return n, (len(base[1]) if base else 0)
+
+
 def main(tier, replay=None):
     chk = Check("C05", tier)
-    build_harness(["sem_run"])
+    build_harness(["sem_run", "corelib_tests"])
     quick = tier == "quick"
     cfgs = CFGS_QUICK if quick else cfgs_thorough()
     progs, files = generate(120 if quick else 1200, 12, 3 if quick else 4, "c05")
@@ -113,11 +179,17 @@ def main(tier, replay=None):
     own = own_corpus_files(5 if quick else 12)
     reals2 = real_results(own, cfgs, "c05own", gas=50_000_000)
     n_cross2 = cross_compare(chk, reals2, "corpus")
-    log(f"[C05] generated: {stats}; cross-config comparisons: generated {n_cross}, corpus {n_cross2}; configurations: {len(cfgs)}")
-    chk.cov["traces_validated_against_impl"] = stats["compared"] + n_cross2
+    # the core library's own test-suite: same verdict under every configuration
+    lin = [c for c in cfgs if c["solver"] == "linear"]
+    core_cfgs = [lin[0], lin[1 + seed() % (len(lin) - 1)]] if quick else [lin[0]] + lin[1::9][:6]
+    n_core, n_tests = corelib_under_configs(chk, core_cfgs)
+    log(f"[C05] generated: {stats}; cross-config comparisons: generated {n_cross}, corpus {n_cross2}; configurations: {len(cfgs)}; "
+        f"corelib tests: {n_tests} tests x {len(core_cfgs)} configurations ({n_core} verdict comparisons)")
+    chk.cov["traces_validated_against_impl"] = stats["compared"] + n_cross2 + n_core
     chk.sample({"configs": cfgs[:4], "program": progs[0]["source"][:400], "args": progs[0]["args"][0]})
     chk.assumptions = ["gas and step counts are ignored; a run that is 'Out of gas' under some configuration is re-run with 100x gas and otherwise excluded",
-                       "the corelib's own test-suite is not run here (not part of this check yet)"]
+                       "the corelib test-suite is run under 2 (quick) / 7 (thorough) configuration points, verdicts (ok / fail / ignored) compared"]
     return chk.finish({"configurations": len(cfgs), "programs": len(progs), "distinct_nontrivial": stats["compared"] + n_cross2,
                        "rule": "(program, args, configuration) runs compared with the reference (generated) or with the first configuration (corpus)",
-                       "generated": stats, "cross_generated": n_cross, "cross_corpus": n_cross2, "exhaustive": False})
+                       "generated": stats, "cross_generated": n_cross, "cross_corpus": n_cross2, "corelib_tests": n_tests, "corelib_configs": len(core_cfgs), "corelib_verdict_comparisons": n_core,
+                       "exhaustive": False})
